@@ -76,4 +76,154 @@ theorem replaceBlock_absent_keyed (d : DmData) (b : Block) (w : Which)
   unfold DmData.replaceBlock
   rcases hl with h | h | h <;> simp [h] at hw ⊢ <;> simp [hw, hd]
 
+/-! ## sortedness, permutation, upsert -/
+
+/-- `keyLt` is the strict lexicographic order on the (level, target) key -/
+theorem keyLt_iff (a b : Block) :
+    keyLt a b = true ↔ a.sortKey.1 < b.sortKey.1 ∨ (a.sortKey.1 = b.sortKey.1 ∧ a.sortKey.2 < b.sortKey.2) := by
+  simp [keyLt]
+
+/-- a list of blocks is sorted by (level, target): no later block has a strictly smaller key -/
+def Sorted (l : List Block) : Prop := l.Pairwise (fun a b => keyLt b a = false)
+
+theorem keyLt_asymm {a b : Block} (h : keyLt a b = true) : keyLt b a = false := by
+  have h' := (keyLt_iff a b).mp h
+  cases hb : keyLt b a with
+  | false => rfl
+  | true =>
+    have := (keyLt_iff b a).mp hb
+    omega
+
+theorem not_keyLt_trans {a b c : Block} (h1 : keyLt b a = false) (h2 : keyLt c b = false) : keyLt c a = false := by
+  cases hc : keyLt c a with
+  | false => rfl
+  | true =>
+    have hc' := (keyLt_iff c a).mp hc
+    have n1 : ¬ (b.sortKey.1 < a.sortKey.1 ∨ (b.sortKey.1 = a.sortKey.1 ∧ b.sortKey.2 < a.sortKey.2)) := by
+      intro h; have := (keyLt_iff b a).mpr h; rw [h1] at this; cases this
+    have n2 : ¬ (c.sortKey.1 < b.sortKey.1 ∨ (c.sortKey.1 = b.sortKey.1 ∧ c.sortKey.2 < b.sortKey.2)) := by
+      intro h; have := (keyLt_iff c b).mpr h; rw [h2] at this; cases this
+    omega
+
+theorem insertSorted_sorted (b : Block) (l : List Block) (h : Sorted l) : Sorted (insertSorted b l) := by
+  induction l with
+  | nil => simp [insertSorted, Sorted]
+  | cons x xs ih =>
+    unfold Sorted at h ih ⊢
+    rw [List.pairwise_cons] at h
+    obtain ⟨hx, hxs⟩ := h
+    simp only [insertSorted]
+    split
+    · rename_i hlt
+      rw [List.pairwise_cons]
+      refine ⟨?_, ih hxs⟩
+      intro y hy
+      rcases (mem_insertSorted b y xs).mp hy with rfl | hy'
+      · exact keyLt_asymm hlt
+      · exact hx y hy'
+    · rename_i hnlt
+      have hxb : keyLt x b = false := by simpa using hnlt
+      rw [List.pairwise_cons]
+      refine ⟨?_, List.pairwise_cons.mpr ⟨hx, hxs⟩⟩
+      intro y hy
+      rcases List.mem_cons.mp hy with rfl | hy'
+      · exact hxb
+      · exact not_keyLt_trans hxb (hx y hy')
+
+/-- **`update_extension_block_info` leaves the container sorted by level and then by target** -/
+theorem sortBlocks_sorted (l : List Block) : Sorted (sortBlocks l) := by
+  induction l with
+  | nil => simp [sortBlocks, Sorted]
+  | cons x xs ih =>
+    show Sorted (insertSorted x (sortBlocks xs))
+    exact insertSorted_sorted x _ ih
+
+theorem insertSorted_perm (b : Block) (l : List Block) : (insertSorted b l).Perm (b :: l) := by
+  induction l with
+  | nil => simp [insertSorted]
+  | cons x xs ih =>
+    simp only [insertSorted]
+    split
+    · exact (List.Perm.cons x ih).trans (List.Perm.swap b x xs)
+    · exact List.Perm.refl _
+
+/-- sorting neither loses, duplicates nor alters a block -/
+theorem sortBlocks_perm (l : List Block) : (sortBlocks l).Perm l := by
+  induction l with
+  | nil => simp [sortBlocks]
+  | cons x xs ih =>
+    show (insertSorted x (sortBlocks xs)).Perm (x :: xs)
+    exact (insertSorted_perm x _).trans (List.Perm.cons x ih)
+
+/-- every edit that touches a container leaves it sorted, with the stored count equal to the number of blocks -/
+theorem addBlock_sorted (allowed : List Nat) (c c' : Container) (b : Block) (h : c.addBlock allowed b = .ok c') :
+    Sorted c'.blocks ∧ c'.num_ext_blocks = c'.blocks.length ∧ c'.blocks.Perm (c.blocks ++ [b]) := by
+  unfold Container.addBlock at h
+  split at h
+  · injection h with h
+    subst h
+    exact ⟨sortBlocks_sorted _, update_count _, sortBlocks_perm _⟩
+  · cases h
+
+theorem removeLevel_sorted (c : Container) (level : Nat) :
+    Sorted (c.removeLevel level).blocks ∧ (c.removeLevel level).num_ext_blocks = (c.removeLevel level).blocks.length ∧
+    (c.removeLevel level).blocks.Perm (c.blocks.filter (fun b => b.level != level)) :=
+  ⟨sortBlocks_sorted _, update_count _, sortBlocks_perm _⟩
+
+/-- the (level, target) match used by the keyed replacement -/
+def sameKey (b x : Block) : Bool := x.level == b.level && x.vals.getD 0 0 == b.vals.getD 0 0
+
+theorem sameKey_self (b : Block) : sameKey b b = true := by simp [sameKey]
+
+theorem replaceFirstOrPush_count (b : Block) (l : List Block) :
+    (replaceFirstOrPush (sameKey b) b l).countP (sameKey b) = max 1 (l.countP (sameKey b)) := by
+  induction l with
+  | nil => simp [replaceFirstOrPush, sameKey_self]
+  | cons x xs ih =>
+    simp only [replaceFirstOrPush]
+    by_cases hx : sameKey b x = true
+    · simp only [hx, if_true, List.countP_cons_of_pos (sameKey_self b), List.countP_cons_of_pos hx]
+      omega
+    · simp only [hx, if_false, Bool.false_eq_true]
+      rw [List.countP_cons_of_neg (by simpa using hx), List.countP_cons_of_neg (by simpa using hx), ih]
+
+theorem replaceFirstOrPush_others (b : Block) (l : List Block) :
+    (replaceFirstOrPush (sameKey b) b l).filter (fun x => !sameKey b x) = l.filter (fun x => !sameKey b x) := by
+  induction l with
+  | nil => simp [replaceFirstOrPush, sameKey_self]
+  | cons x xs ih =>
+    simp only [replaceFirstOrPush]
+    by_cases hx : sameKey b x = true
+    · simp [hx, sameKey_self]
+    · simp only [hx, if_false, Bool.false_eq_true]
+      simp only [List.filter_cons, ih]
+
+/-- **replacement is an upsert keyed by (level, target)**: afterwards the container is sorted, the count is
+right, a key that had one block still has exactly one (it adds no second block; a key that had none has one),
+the new block is present, and the blocks with other keys are exactly the old ones -/
+theorem replaceKeyed_upsert (c : Container) (b : Block) :
+    Sorted (c.replaceKeyed b).blocks ∧
+    (c.replaceKeyed b).num_ext_blocks = (c.replaceKeyed b).blocks.length ∧
+    b ∈ (c.replaceKeyed b).blocks ∧
+    (c.replaceKeyed b).blocks.countP (sameKey b) = max 1 (c.blocks.countP (sameKey b)) ∧
+    ((c.replaceKeyed b).blocks.filter (fun x => !sameKey b x)).Perm (c.blocks.filter (fun x => !sameKey b x)) := by
+  have hp : (c.replaceKeyed b).blocks.Perm (replaceFirstOrPush (sameKey b) b c.blocks) := sortBlocks_perm _
+  refine ⟨sortBlocks_sorted _, update_count _, ?_, ?_, ?_⟩
+  · apply hp.symm.subset
+    clear hp
+    induction c.blocks with
+    | nil => simp [replaceFirstOrPush]
+    | cons x xs ih =>
+      simp only [replaceFirstOrPush]
+      split
+      · simp
+      · exact List.mem_cons_of_mem _ ih
+  · rw [hp.countP_eq, replaceFirstOrPush_count]
+  · exact (hp.filter _).trans (by rw [replaceFirstOrPush_others])
+
+/-- non-vacuity: an unsorted container with two L2 trims and an L1 block -/
+example : Sorted (sortBlocks [{ level := 2, length := 11, vals := [3079, 0, 0, 0, 0, 0, 0] },
+    { level := 1, length := 5, vals := [0, 1, 2] }, { level := 2, length := 11, vals := [2081, 0, 0, 0, 0, 0, 0] }]) :=
+  sortBlocks_sorted _
+
 end Dovi.C12
